@@ -789,6 +789,42 @@ func genC10(r *rand.Rand, n int, exhaustive bool, out func(J), next func() int) 
 		q.proj = strings.Join(bindingsOf(first), ", ")
 		out(tag(run(Spec{Graphs: gs, Query: q.text()}, false), "optional-unprojected", next()))
 	}
+	// an OPTIONAL clause whose ONLY bindings shared with the table are extraction aliases (AT / TYPE / ID), over data in
+	// which the same instant is written in two zones on the two sides (anchors are joined as instants)
+	shared := [][]string{
+		{`?b "q"@[?t] ?c`, `?s ?p ?o AT ?t`},
+		{`?b "q"@[?t] ?c`, `?s ?p AT ?t ?o`},
+		{`?b ?p1 AT ?t ?c`, `?s "r"@[] ?o AT ?t`},
+		{`?b ?p1 ?c AT ?t`, `?s ?p AT ?t ?o`},
+		{`?a TYPE ?ty ?p ?b`, `?x ?q ?y TYPE ?ty`},
+		{`?a ID ?i ?p ?b`, `?x ID ?i ?q ?y`},
+		{`?a ?p ID ?i ?b`, `?x ?q ID ?i ?y`},
+		{`?a ?p ?b TYPE ?ty ID ?i`, `?x TYPE ?ty ID ?i "p"@[] ?y`},
+	}
+	zoned := []string{
+		"/u<ann>\t\"q\"@[2016-01-01T01:00:00+01:00]\t/u<car>", "/u<s1>\t\"r\"@[]\t\"q\"@[2016-01-01T00:00:00Z]",
+		"/u<s2>\t\"q\"@[2016-01-01T00:00:00Z]\t/u<d>", "/u<bob>\t\"q\"@[2016-06-01T00:00:00-08:00]\t\"q\"@[2016-01-01T01:00:00+01:00]",
+		"/u<s3>\t\"r\"@[]\t\"p\"@[2016-06-01T00:00:00-08:00]", "/t<ann>\t\"p\"@[]\t/u<ann>",
+	}
+	for i := 0; i < n/8; i++ {
+		ts := append(append([]string{}, zoned...), genTriples(r, 4+r.Intn(6))...)
+		seen := map[string]bool{}
+		var uniq []string
+		for _, t := range ts {
+			if k := tripleKey(t); !seen[k] {
+				seen[k] = true
+				uniq = append(uniq, t)
+			}
+		}
+		k := 1 + i%2
+		cl := shared[i%len(shared)]
+		q := query{clauses: []string{cl[0], cl[1]}, optional: []bool{false, true}, from: k}
+		if i%3 == 2 {
+			q.clauses = append(q.clauses, "?c ?p9 ?z")
+			q.optional = append(q.optional, true)
+		}
+		out(tag(run(Spec{Graphs: roundRobin(uniq, k, i%k), Query: q.text()}, false), "optional-extraction-shared", next()))
+	}
 	if exhaustive {
 		// all pairs (plain first clause form, plain second clause form) with the second optional, names from a pool of 3
 		pool := []string{"?a", "?b", "?c"}
